@@ -367,6 +367,9 @@ def run():
                 continue            # quadratic in the depth: tens of seconds at 5000 on a shared machine
             if fam in ("group", "loop") and d > 100:
                 continue            # cubic: seconds at depth 400
+            if (fam == "and-chain" and d > 400) or (fam == "fstring-holes" and d > 1500):
+                continue            # rq_to_sql is about cubic in the length of these chains (2.7 s at 400, 21 s at 800 on the
+                                    # shared machine): within the allowance 0.01 n^2 ms, but minutes at 1500 / 5000
             s = mk(d)
             for e in ("tokens", "compile"):
                 for st in (64, 8):
